@@ -419,6 +419,13 @@ def deep_fields(W, obj, prefix=''):
         return out
     if hasattr(obj, '__dict__'):
         out.append((prefix + '.type', type(obj).__name__))
+        if 'MLPRegressor' in type(obj).__name__:
+            # a network is what its predict() reads
+            for k in ('coefs_', 'intercepts_', 'n_layers_', 'activation',
+                      'out_activation_'):
+                out.extend(deep_fields(W, getattr(obj, k, None),
+                                       prefix + '.' + k))
+            return out
         for k in sorted(obj.__dict__):
             if k in SKIP or callable(obj.__dict__[k]):
                 continue
